@@ -79,6 +79,7 @@ fn profile(thorough: bool) -> Profile {
         update: 6,
         disable: 4,
         prune: 2,
+        recaps: 6,
         bad_pct: 0,
         min_ops: 1,
         max_ops: if thorough { 40 } else { 22 },
@@ -93,7 +94,7 @@ fn nontrivial(o: &Outcome) -> bool {
     o.events.contains("multi-target-mixed-flavours") || o.events.contains("hybrid-flavour-observed-after-rekey") || o.events.contains("mlkem-binding-probed") || o.events.contains("mlkem-dk-needed-probed")
 }
 
-const CLASSES: &[&str] = &["hybridized-enc", "multi-target-mixed-flavours", "hybrid-flavour-observed-after-rekey", "mlkem-binding-probed", "mlkem-dk-needed-probed", "rekeyed", "roundtrip", "multi-target-enc"];
+const CLASSES: &[&str] = &["hybridized-enc", "multi-target-mixed-flavours", "hybrid-flavour-observed-after-rekey", "mlkem-binding-probed", "mlkem-dk-needed-probed", "hybridized-recaps", "rekeyed", "roundtrip", "multi-target-enc"];
 
 pub fn hc(thorough: bool) -> HistCheck<'static> {
     HistCheck {
@@ -119,7 +120,7 @@ pub fn run(ctx: &Ctx, col: &Collector) -> Meta {
     }
     Meta {
         level: "exploration",
-        rule: "random structures with arbitrary hint assignments (all-classic, all-hybridized, mixed within and across dimensions) and histories of rekey, refresh, round-trips, key generation and encapsulation with single / multiple targets of equal and mixed flavour; from the independently decoded wire forms: every revision of every right in the master key, every public key and every user-key secret carries ML-KEM material iff some attribute of the right was declared hybridized; an encapsulation has the hybridized layout (flag, one ML-KEM ciphertext per target, size = README formula) iff all its targets are hybridized; flipping a bit inside an ML-KEM ciphertext makes an authorized key fail, and so does replacing every ML-KEM decapsulation key of the authorized key by a valid unrelated one (the ML-KEM layer must contribute to the secret); plus a fixed sweep of encapsulations with n all-hybridized targets and with n hybridized + 1 classic target for n in 1..129 around every power of two and 14-17: layout, component count, size formula, authorized opening. Non-trivial = history with a multi-target encapsulation of mixed flavours, a hybridized flavour observed after a rekey, or an ML-KEM binding probe; distinct by the whole case".into(),
+        rule: "random structures with arbitrary hint assignments (all-classic, all-hybridized, mixed within and across dimensions) and histories of rekey, refresh, round-trips, key generation and encapsulation with single / multiple targets of equal and mixed flavour; from the independently decoded wire forms: every revision of every right in the master key, every public key and every user-key secret carries ML-KEM material iff some attribute of the right was declared hybridized; an encapsulation has the hybridized layout (flag, one ML-KEM ciphertext per target, size = README formula) iff all its targets are hybridized; a re-encapsulation has the flavour of its own targets; flipping a bit inside an ML-KEM ciphertext makes an authorized key fail, and so does replacing every ML-KEM decapsulation key of the authorized key by a valid unrelated one (the ML-KEM layer must contribute to the secret); plus a fixed sweep of encapsulations with n all-hybridized targets and with n hybridized + 1 classic target for n in 1..129 around every power of two and 14-17: layout, component count, size formula, authorized opening. Non-trivial = history with a multi-target encapsulation of mixed flavours, a hybridized flavour observed after a rekey, or an ML-KEM binding probe; distinct by the whole case".into(),
         exhaustive: false,
         assumptions: vec!["flavour = presence of ML-KEM key material / ciphertexts in the serialized forms (sizes from the selected configuration)".into()],
     }
